@@ -262,7 +262,7 @@ lemma("cpath_inj", [_base, _k, _k2], Imp(And(_k >= 0, _k2 >= 0, _k != _k2), cpat
       patterns=[z3.MultiPattern(cpath(_base, _k), cpath(_base, _k2))], inline_defs=["cpath"], no_auto=True, unfold_only=[])
 lemma("cpath_not_meta", [_base, _k], cpath(_base, _k) != z3.Concat(_base, z3.StringVal("_meta")),
       patterns=[cpath(_base, _k)], inline_defs=["cpath"], no_auto=True, unfold_only=[])
-lemma("aitem_len", [_fs, _base, _m, _sz, _i], Imp(And(_sz >= 0, _m >= 1, _i >= 0), Len(aitem(_fs, _base, _m, _sz, _i)) == _sz),
+lemma("aitem_len", [_fs, _base, _m, _sz, _i], Imp(And(_sz >= 0, _m >= 1), Len(aitem(_fs, _base, _m, _sz, _i)) == _sz),
       patterns=[aitem(_fs, _base, _m, _sz, _i)], uses=["fitem_len", "mul_mono"], no_auto=True,
       unfold_only=["aitem"], use_inst=[("mul_mono", [z3.IntVal(0), _i % _m, _sz])])
 # creating a missing chunk file (empty) changes no item
@@ -378,6 +378,8 @@ SCALARS_SAME = ["self.__local_path == old(self.__local_path)", "self.__item_size
                 "self.__array_len == old(self.__array_len)", "self.__item_num_in_one_file == old(self.__item_num_in_one_file)",
                 "self.__file_num == old(self.__file_num)", "len(self.__opened_files) == old(len(self.__opened_files))"]
 AINV = ["inv(self)", cache_ok()]
+# a refused operation: no file, no file object, no field of the array changes
+RAISE_SAME = NOFX + SCALARS_SAME + ["self.__opened_files == old(self.__opened_files)"]
 FGHOST = ["fs", "fh_state", "fh_path", "fh_pos"]
 CP = "cpath(self.__local_path, file_id)"
 contract(SMF + "._get_file_by_id", params=dict(self=SMFT, file_id=TInt), returns=TFile, modifies=["self"],
@@ -430,7 +432,7 @@ inline(SMF + ".__len__")
 VIEW_RO = AINV + SCALARS_SAME + [fh_grow, view_same()]
 contract(SMF + ".__getitem__#int", params=dict(self=SMFT, item=TInt), returns=TBytes, modifies=["self"], requires=AINV,
          raises={"IndexError": dict(when="item >= self.__array_len or item < -self.__array_len", iff=True)},
-         raise_ensures={"IndexError": NOFX},
+         raise_ensures={"IndexError": RAISE_SAME},
          ensures=VIEW_RO + ["result == " + AIT % ("old(fs)", "item % self.__array_len"), "len(result) == self.__item_size"],
          modifies_ghost=FGHOST, no_runtime=True, props=["C19"])
 SI = "item.indices(self.__array_len)"
@@ -468,14 +470,14 @@ WR_HINTS = [(ln, [e.replace("index", "(%s)" % KN) for e in es]) for ln, es in FI
 contract(SMF + ".__setitem__#int", params=dict(self=SMFT, key=TInt, value=TBytes), modifies=["self"], requires=AINV,
          raises={"IndexError": dict(when="key >= self.__array_len or key < -self.__array_len", iff=True),
                  "ValueError": dict(when="not (key >= self.__array_len or key < -self.__array_len) and len(value) > self.__item_size", iff=True)},
-         raise_ensures={"IndexError": NOFX, "ValueError": NOFX},
+         raise_ensures={"IndexError": RAISE_SAME, "ValueError": RAISE_SAME},
          lemmas=["aitem_write", "zeros_len"],
          ensures=AINV + SCALARS_SAME + [fh_grow, view_upd(KN, PADV)],
          modifies_ghost=FGHOST, no_runtime=True, props=["C19"])
 contract(SMF + ".__setitem__#notbytes", params=dict(self=SMFT, key=TInt, value=TInt), modifies=["self"], requires=AINV,
          raises={"IndexError": dict(when="key >= self.__array_len or key < -self.__array_len", iff=True),
                  "TypeError": dict(when="not (key >= self.__array_len or key < -self.__array_len)", iff=True)},
-         raise_ensures={"IndexError": NOFX, "TypeError": NOFX},
+         raise_ensures={"IndexError": RAISE_SAME, "TypeError": RAISE_SAME},
          modifies_ghost=FGHOST, no_runtime=True, props=["C19"])
 
 # ---- close ---------------------------------------------------------------------------------------------------------------
@@ -606,6 +608,7 @@ def _rebuildable(maker, *args):
 U_AINV = ["inv(%s)" % UP, cache_ok(UW)]
 U_SAME = U(SCALARS_SAME) + ["self.__local_path == old(self.__local_path)"]
 U_RO = U_AINV + U_SAME + [fh_grow, view_same(UW)]
+U_RAISE_SAME = NOFX + U_SAME + ["%s.__opened_files == old(%s.__opened_files)" % (UP, UP)]
 U_AIT = AIT.replace("self.__", UP + ".__")
 U_APK = APK.replace("self.__", UP + ".__")
 ULEN = UP + ".__array_len"
@@ -613,7 +616,7 @@ OUT_OF_RANGE = "%s >= {0} or %s < -{0}".format(ULEN)
 contract(SPF + ".__len__", params=dict(self=SPFT), returns=TInt, ensures=["result == " + ULEN] + NOFX, no_runtime=True, props=["C19"])
 inline(SPF + ".item_size", SMF + ".item_size", SPF + ".local_path", SMF + ".local_path", SPF + ".sync")
 contract(SPF + ".__getitem__#int", params=dict(self=SPFT, item=TInt), returns=TBytes, modifies=["self"], requires=U_AINV,
-         raises={"IndexError": dict(when=OUT_OF_RANGE % ("item", "item"), iff=True)}, raise_ensures={"IndexError": NOFX},
+         raises={"IndexError": dict(when=OUT_OF_RANGE % ("item", "item"), iff=True)}, raise_ensures={"IndexError": U_RAISE_SAME},
          ensures=U_RO + ["result == " + U_AIT % ("old(fs)", "item % " + ULEN), "len(result) == %s.__item_size" % UP],
          modifies_ghost=FGHOST, no_runtime=True, props=["C19"])
 USI = "item.indices(%s)" % ULEN
@@ -627,13 +630,13 @@ UPADV = "zeros(%s.__item_size - len(value)) + value" % UP
 contract(SPF + ".__setitem__#int", params=dict(self=SPFT, key=TInt, value=TBytes), modifies=["self"], requires=U_AINV,
          raises={"IndexError": dict(when=OUT_OF_RANGE % ("key", "key"), iff=True),
                  "ValueError": dict(when="not (%s) and len(value) > %s.__item_size" % (OUT_OF_RANGE % ("key", "key"), UP), iff=True)},
-         raise_ensures={"IndexError": NOFX, "ValueError": NOFX},
+         raise_ensures={"IndexError": U_RAISE_SAME, "ValueError": U_RAISE_SAME},
          ensures=U_AINV + U_SAME + [fh_grow, view_upd(UKN, UPADV, who=UW)],
          modifies_ghost=FGHOST, no_runtime=True, props=["C19"])
 contract(SPF + ".__setitem__#notbytes", params=dict(self=SPFT, key=TInt, value=TInt), modifies=["self"], requires=U_AINV,
          raises={"IndexError": dict(when=OUT_OF_RANGE % ("key", "key"), iff=True),
                  "TypeError": dict(when="not (%s)" % (OUT_OF_RANGE % ("key", "key")), iff=True)},
-         raise_ensures={"IndexError": NOFX, "TypeError": NOFX},
+         raise_ensures={"IndexError": U_RAISE_SAME, "TypeError": U_RAISE_SAME},
          modifies_ghost=FGHOST, no_runtime=True, props=["C19"])
 contract(SPF + ".__iter__", params=dict(self=SPFT), returns=TList(TBytes), modifies=["self"], requires=U_AINV,
          ensures=U_RO + ["result == " + U_APK % ("0", "1", ULEN), "len(result) == " + ULEN],
@@ -645,12 +648,12 @@ contract(SPF + ".close", params=dict(self=SPFT), modifies=["self"], requires=["i
 # ---- derived operations of the interface: deletion = zero fill, clear ---------------------------------------------------------
 ZI = "zeros(%s.__item_size)" % UP
 contract(IFA + "._set_all_zeros_by_index", params=dict(self=SPFT, index=TInt), modifies=["self"], requires=U_AINV,
-         raises={"IndexError": dict(when=OUT_OF_RANGE % ("index", "index"), iff=True)}, raise_ensures={"IndexError": NOFX},
+         raises={"IndexError": dict(when=OUT_OF_RANGE % ("index", "index"), iff=True)}, raise_ensures={"IndexError": U_RAISE_SAME},
          lemmas=["zeros_len"],
          ensures=U_AINV + U_SAME + [fh_grow, view_upd("index % " + ULEN, ZI, who=UW)],
          modifies_ghost=FGHOST, no_runtime=True, props=["C19"])
 contract(IFA + ".__delitem__#int", params=dict(self=SPFT, i=TInt), modifies=["self"], requires=U_AINV,
-         raises={"IndexError": dict(when=OUT_OF_RANGE % ("i", "i"), iff=True)}, raise_ensures={"IndexError": NOFX},
+         raises={"IndexError": dict(when=OUT_OF_RANGE % ("i", "i"), iff=True)}, raise_ensures={"IndexError": U_RAISE_SAME},
          ensures=U_AINV + U_SAME + [fh_grow, view_upd("i % " + ULEN, ZI, who=UW)],
          modifies_ghost=FGHOST, no_runtime=True, props=["C19"])
 
@@ -804,3 +807,199 @@ for op_, call_ in (("get", "a[k]"), ("set", "a[k] = v"), ("del", "del a[k]"), ("
              body="def pa_closed_refuses_%s(a, k, v):\n    a.close()\n    %s\n" % (op_, call_),
              requires=A_INV, modifies=["a"], raises={"ValueError": dict(when="True", iff=True)},
              modifies_ghost=FGHOST, props=["C19"])
+
+
+# =====================================================================================================================
+# slice assignment / deletion: which item (if any) a position of range(start, stop, step) addresses
+# =====================================================================================================================
+_hj, _hs, _hst, _hk, _hk2, _ht = z3.Ints("h_j h_s h_st h_k h_k2 h_t")
+hit = specfn("hit", [TInt, TInt, TInt, TInt], TInt,
+             doc="the largest t < k with start + t*step == j, or -1: which of the first k positions of a range addresses item j")
+hit.define = lambda j, s, st, k: z3.If(k <= 0, -1, z3.If(j == s + (k - 1) * st, k - 1, hit(j, s, st, k - 1)))
+HV = [_hj, _hs, _hst, _hk]
+lemma("hit_range", HV, And(hit(*HV) >= -1, hit(*HV) < z3.If(_hk <= 0, 0, _hk)), patterns=[hit(*HV)],
+      induct=("int", _hk), inst=[[_hj, _hs, _hst, _hk - 1]], no_auto=True, unfold_only=["hit"])
+lemma("hit_sound", HV, Imp(hit(*HV) >= 0, _hj == _hs + hit(*HV) * _hst), patterns=[hit(*HV)],
+      induct=("int", _hk), inst=[[_hj, _hs, _hst, _hk - 1]], no_auto=True, unfold_only=["hit"])
+lemma("hit_step", HV, Imp(_hk >= 0, hit(_hj, _hs, _hst, _hk + 1) == z3.If(_hj == _hs + _hk * _hst, _hk, hit(*HV))),
+      patterns=[hit(_hj, _hs, _hst, _hk + 1)], no_auto=True, unfold_only=["hit"])
+# positions of a range with a non-zero step are pairwise distinct: a later position is none of the first k
+lemma("hit_fresh", [_hj, _hs, _hst, _hk, _ht], Imp(And(_hst != 0, _ht >= _hk, _hj == _hs + _ht * _hst), hit(_hj, _hs, _hst, _hk) == -1),
+      patterns=None, induct=("int", _hk), inst=[[_hj, _hs, _hst, _hk - 1, _ht]], no_auto=True, unfold_only=["hit"],
+      uses=["mul_nonzero"], use_inst=[("mul_nonzero", [_ht - (_hk - 1), _hst])])
+# ... hence looking at more positions does not change which one addressed j
+lemma("hit_stable", [_hj, _hs, _hst, _hk, _hk2], Imp(And(_hst != 0, hit(*HV) >= 0, _hk <= _hk2), hit(_hj, _hs, _hst, _hk2) == hit(*HV)),
+      patterns=None, induct=("int", _hk2), inst=[[_hj, _hs, _hst, _hk, _hk2 - 1]], no_auto=True, unfold_only=["hit"],
+      uses=["hit_range", "hit_sound", "mul_nonzero"],
+      use_inst=[("hit_range", HV), ("hit_sound", HV), ("mul_nonzero", [(_hk2 - 1) - hit(*HV), _hst])])
+_rs, _rstop, _rst = z3.Ints("r_s r_stop r_st")
+rcnt = specfn("rcnt", [TInt, TInt, TInt], TInt, py=lambda s, stop, st: len(range(s, stop, st)) if st != 0 else 0,
+              doc="len(range(start, stop, step)) for step != 0: the number of positions start, start+step, ... before stop")
+_inr = lambda x, stop, st: z3.If(st > 0, x < stop, x > stop)
+rcnt.define = lambda s, stop, st: z3.If(And(st != 0, _inr(s, stop, st)), 1 + rcnt(s + st, stop, st), 0)
+lemma("rcnt_nonneg", [_rs, _rstop, _rst], rcnt(_rs, _rstop, _rst) >= 0, patterns=[rcnt(_rs, _rstop, _rst)],
+      induct=("int", z3.If(_rst > 0, _rstop - _rs, _rs - _rstop)), inst=[[_rs + _rst, _rstop, _rst]], no_auto=True, unfold_only=["rcnt"])
+
+
+def view_hits(s_src, st_src, k_src, val, who=UW):
+    """after the call, item j is val(t) if position t = hit(j, start, step, k) >= 0 of the range addressed it, else as at entry"""
+    def f(E, env):
+        pre_env, pre_heap, pre_ghost = E.old_stack[-1]
+        base, m, sz = (_afld(E, env, n, who) for n in (A_PATH, A_M, A_SZ))
+        s, st, k = (z3_int(E.spec_eval(x, env, old=True)) for x in (s_src, st_src, k_src))
+        j = z3.Int("vj")
+        new, old_ = _named(E, E.ghostv["fs"].t), pre_ghost["fs"].t
+        s, st, k = (_named(E, x) for x in (s, st, k))
+        h = hit(j, s, st, k)
+        # the defining equation of hit at this k for every j (what ground definitional instantiation cannot reach under the binder)
+        E.assume(z3.ForAll([j], h == hit.define(j, s, st, k), patterns=[h]))
+        return SV(z3.ForAll([j], Imp(j >= 0, aitem(new, base, m, sz, j) == z3.If(h >= 0, val(E, env, h, sz), aitem(old_, base, m, sz, j))),
+                            patterns=[aitem(new, base, m, sz, j)]), TBool)
+    return f
+
+
+ZEROV = lambda E, env, h, sz: zeros(sz)
+DSI = "i.indices(%s)" % ULEN
+RC = "rcnt(start, stop, stride)"
+contract(IFA + ".__delitem__#slice", params=dict(self=SPFT, i=TSlice), modifies=["self"],
+         requires=U_AINV + ["i.step is None or i.step != 0"],
+         lemmas=["hit_step", "hit_range", "rcnt_nonneg", "zeros_len"],
+         ensures=U_AINV + U_SAME + [fh_grow, view_hits(DSI + "[0]", DSI + "[2]", "rcnt(%s[0], %s[1], %s[2])" % (DSI, DSI, DSI), ZEROV)],
+         loops={0: dict(invariant=U_AINV + U_SAME + [fh_grow, view_hits("start", "stride", "it", ZEROV),
+                                                     RC + " == it + rcnt(start + it * stride, stop, stride)",
+                                                     "0 <= start or stride < 0", "start <= " + ULEN, "-1 <= stop", "stop <= " + ULEN,
+                                                     "start < %s or stride > 0" % ULEN])},
+         modifies_ghost=FGHOST, no_runtime=True, props=["C19"])
+
+_apk = apick(_fs, _base, _m, _sz, _st, _stp, _cnt)
+lemma("apick_nth_q", [_fs, _base, _m, _sz, _st, _stp, _cnt, _t],
+      Imp(And(0 <= _t, _t < _cnt), _apk[_t] == aitem(_fs, _base, _m, _sz, _st + _t * _stp)),
+      patterns=[nth_pat(_apk, _t)], uses=["apick_nth"], use_inst=[("apick_nth", [_fs, _base, _m, _sz, _st, _stp, _cnt, _t])],
+      no_auto=True, unfold_only=[])
+_mx, _mn = z3.Ints("ms_x ms_n")
+lemma("mod_small_p", [_mx, _mn], Imp(And(0 <= _mx, _mx < _mn), And(_mx % _mn == _mx, _mx / _mn == 0)), patterns=None,
+      uses=["div_mod_unique"], use_inst=[("div_mod_unique", [_mx, _mn, z3.IntVal(0), _mx])], no_auto=True, unfold_only=[])
+
+# ---- slice assignment with rollback ------------------------------------------------------------------------------------
+_fv = z3.Const("fu_xs", BLs)
+_fk, _fk2, _fsz = z3.Ints("fu_k fu_k2 fu_sz")
+fits_upto = specfn("fits_upto", [TList(TBytes), TInt, TInt], TBool, doc="the first k items are at most sz bytes long")
+fits_upto.define = lambda xs, sz, k: z3.If(k <= 0, True, And(Len(xs[k - 1]) <= sz, fits_upto(xs, sz, k - 1)))
+lemma("fits_mono", [_fv, _fsz, _fk, _fk2], Imp(And(fits_upto(_fv, _fsz, _fk2), _fk <= _fk2), fits_upto(_fv, _fsz, _fk)),
+      patterns=[z3.MultiPattern(fits_upto(_fv, _fsz, _fk2), fits_upto(_fv, _fsz, _fk))], induct=("int", _fk2),
+      inst=[[_fv, _fsz, _fk, _fk2 - 1]], no_auto=True, unfold_only=["fits_upto"])
+# the saved items are items of the view, hence exactly sz bytes long: restoring them can never be refused
+lemma("apick_fits", [_fs, _base, _m, _sz, _st, _stp, _cnt, _fk],
+      Imp(And(_sz >= 0, _m >= 1, _fk <= _cnt), fits_upto(apick(_fs, _base, _m, _sz, _st, _stp, _cnt), _sz, _fk)),
+      patterns=None, induct=("int", _fk), inst=[[_fs, _base, _m, _sz, _st, _stp, _cnt, _fk - 1]], no_auto=True,
+      unfold_only=["fits_upto"], uses=["apick_nth", "aitem_len", "apick_len"],
+      use_inst=[("apick_nth", [_fs, _base, _m, _sz, _st, _stp, _cnt, _fk - 1])])
+
+
+def PADVAL(E, env, h, sz):
+    v = E.list_sv(env["value"]).t
+    return z3.Concat(zeros(sz - Len(v[h])), v[h])
+
+
+def _inst(E, lemma_name, terms):
+    """assume a ground instance of a proved lemma (sound: every registered lemma is itself an obligation of the check)"""
+    from pyvc.registry import LEMMAS
+    Lm = LEMMAS[lemma_name]
+    E.lemmas_used.add(lemma_name)
+    E.assume(z3.substitute(Lm.body, *list(zip(Lm.vars, terms))))
+
+
+def rollback_restored(E, env):
+    """raise path of the slice assignment: every item reads as at entry.  Stated for one arbitrary (fresh) item number,
+    which proves it for all; the lemma instances the argument needs are supplied at that item."""
+    if E.spec_role == "assume":      # a caller learns the statement for every item
+        return view_same("self")(E, env)
+    pre_env, pre_heap, pre_ghost = E.old_stack[-1]
+    base, m, sz = (_afld(E, env, n, "self") for n in (A_PATH, A_M, A_SZ))
+    s, st, k = z3_int(env["start"]), z3_int(env["stride"]), z3_int(env["_it0"])
+    j0 = E.fresh("any_item", TInt).t
+    orig, new = pre_ghost["fs"].t, E.ghostv["fs"].t
+    A = apick(orig, base, m, sz, s, st, k + 1)
+    h1 = hit(j0, s, st, k + 1)
+    _inst(E, "hit_step", [j0, s, st, k])
+    _inst(E, "hit_range", [j0, s, st, k + 1])
+    _inst(E, "hit_range", [j0, s, st, k])
+    _inst(E, "hit_sound", [j0, s, st, k + 1])
+    _inst(E, "apick_nth", [orig, base, m, sz, s, st, k + 1, h1])
+    _inst(E, "aitem_len", [orig, base, m, sz, s + h1 * st])
+    _inst(E, "zeros_len", [sz - Len(A[h1])])
+    return SV(Imp(j0 >= 0, aitem(new, base, m, sz, j0) == aitem(orig, base, m, sz, j0)), TBool)
+
+
+KSI = "key.indices(self.__array_len)"
+NW = "min(rcnt({0}[0], {0}[1], {0}[2]), len(value))".format(KSI)
+def proof_step(src):
+    """an intermediate fact over the function's locals, proved on the way to the next clause (nothing for callers)"""
+    return lambda E, env: True if E.spec_role == "assume" else E.spec_eval(src, env, old=True)
+
+
+SAME_ON_RAISE = AINV + SCALARS_SAME + [fh_grow, proof_step("min(rcnt(start, stop, stride), len(old_items)) == _it0 + 1"),
+                                       proof_step("old_items == " + APK % ("start", "stride", "_it0 + 1")), rollback_restored]
+contract(SMF + ".__setitem__#slice", params=dict(self=SMFT, key=TSlice, value=TList(TBytes)), modifies=["self"],
+         requires=AINV + ["key.step is None or key.step != 0"],
+         raises={"ValueError": dict(when="not fits_upto(value, self.__item_size, %s)" % NW, iff=True)},
+         raise_ensures={"ValueError": SAME_ON_RAISE},
+         lemmas=["hit_range", "hit_sound", "rcnt_nonneg", "zeros_len", "fits_mono", "aitem_len", "apick_len", "aitem_write", "apick_nth_q"],
+         locals={"old_items": TList(TBytes)}, unfold_only=["apick", "fits_upto", "rcnt"],
+         ensures=AINV + SCALARS_SAME + [fh_grow, view_hits(KSI + "[0]", KSI + "[2]", NW, PADVAL, who="self")],
+         loops={0: dict(invariant=AINV + SCALARS_SAME + [fh_grow, view_hits("start", "stride", "it", PADVAL, who="self"),
+                                                         RC + " == it + rcnt(start + it * stride, stop, stride)",
+                                                         "it <= len(value)", "len(value_iter) == len(value) - it",
+                                                         "len(old_items) == it", "old_items == " + APK % ("start", "stride", "it"),
+                                                         "fits_upto(value, self.__item_size, it)",
+                                                         "0 <= start or stride < 0", "start <= self.__array_len", "-1 <= stop",
+                                                         "stop <= self.__array_len", "start < self.__array_len or stride > 0"],
+                        hints=[("mul_mono", ["0", "it", "stride"]), ("mul_mono", ["0", "it", "0 - stride"]),
+                               ("mod_small_p", ["start + it * stride", "self.__array_len"]),
+                               ("hit_fresh", ["(start + it * stride) % self.__array_len", "start", "stride", "it", "it"]),
+                               ("fits_mono", ["value", "self.__item_size", "it + 1", "min(rcnt(start, stop, stride), len(value))"]),
+                               ("apick_fits", ["old(fs)", "self.__local_path", "self.__item_num_in_one_file", "self.__item_size",
+                                               "start", "stride", "it + 1", "it + 1"])])},
+         modifies_ghost=FGHOST, no_runtime=True, props=["C19"])
+
+# rollback restores the view (pointwise): fs1 = view after k1-1 writes, fs2 = fs1 after writing back the k1 saved items
+_f0, _f1, _f2 = z3.Consts("rb_fs0 rb_fs1 rb_fs2", FSs)
+_k1 = z3.Int("rb_k1")
+_rbA = apick(_f0, _base, _m, _sz, _hs, _hst, _k1)
+_rbh1 = hit(_hj, _hs, _hst, _k1)
+lemma("rollback_point", [_f0, _f1, _f2, _base, _m, _sz, _hs, _hst, _k1, _hj],
+      Imp(And(_hst != 0, _sz >= 0, _m >= 1, _k1 >= 1,
+              Imp(hit(_hj, _hs, _hst, _k1 - 1) < 0, aitem(_f1, _base, _m, _sz, _hj) == aitem(_f0, _base, _m, _sz, _hj)),
+              aitem(_f2, _base, _m, _sz, _hj) == z3.If(_rbh1 >= 0, z3.Concat(zeros(_sz - Len(_rbA[_rbh1])), _rbA[_rbh1]),
+                                                      aitem(_f1, _base, _m, _sz, _hj))),
+          aitem(_f2, _base, _m, _sz, _hj) == aitem(_f0, _base, _m, _sz, _hj)),
+      patterns=[z3.MultiPattern(aitem(_f2, _base, _m, _sz, _hj), aitem(_f1, _base, _m, _sz, _hj), aitem(_f0, _base, _m, _sz, _hj), _rbh1)],
+      uses=["hit_step", "hit_range", "hit_sound", "apick_nth", "aitem_len", "zeros_len", "apick_len"], no_auto=True, unfold_only=[],
+      use_inst=[("hit_step", [_hj, _hs, _hst, _k1 - 1]), ("hit_range", [_hj, _hs, _hst, _k1]), ("hit_sound", [_hj, _hs, _hst, _k1]),
+                ("apick_nth", [_f0, _base, _m, _sz, _hs, _hst, _k1, _rbh1]),
+                ("aitem_len", [_f0, _base, _m, _sz, _hs + _rbh1 * _hst]), ("zeros_len", [_sz - Len(_rbA[_rbh1])])])
+
+# wrapper: slice assignment through SPFLBArray, and the history clause "a failing slice assignment leaves the array as it was"
+UKSI = "key.indices(%s)" % ULEN
+UNW = "min(rcnt({0}[0], {0}[1], {0}[2]), len(value))".format(UKSI)
+contract(SPF + ".__setitem__#slice", params=dict(self=SPFT, key=TSlice, value=TList(TBytes)), modifies=["self"],
+         requires=U_AINV + ["key.step is None or key.step != 0"],
+         raises={"ValueError": dict(when="not fits_upto(value, %s.__item_size, %s)" % (UP, UNW), iff=True)},
+         raise_ensures={"ValueError": U_AINV + U_SAME + [fh_grow, view_same(UW)]},
+         ensures=U_AINV + U_SAME + [fh_grow, view_hits(UKSI + "[0]", UKSI + "[2]", UNW, PADVAL, who=UW)],
+         modifies_ghost=FGHOST, no_runtime=True, props=["C19"])
+contract("ghost:pa_failed_slice_write_then_read", params=dict(a=SPFT, key=TSlice, value=TList(TBytes), k=TInt), returns=TBytes, ghost_scope=GA,
+         body="""def pa_failed_slice_write_then_read(a, key, value, k):
+    try:
+        a[key] = value
+    except ValueError:
+        return a[k]
+    return a[k]
+""",
+         requires=A_INV + ["key.step is None or key.step != 0", "0 <= k", "k < a.__underlying_array.__array_len",
+                           "not fits_upto(value, a.__underlying_array.__item_size, min(rcnt(key.indices(a.__underlying_array.__array_len)[0], "
+                           "key.indices(a.__underlying_array.__array_len)[1], key.indices(a.__underlying_array.__array_len)[2]), len(value)))"],
+         modifies=["a"], lemmas=["mod_small_p"], hints=[("mod_small_p", ["k", "a.__underlying_array.__array_len"])],
+         ensures=["result == aitem(old(fs), a.__underlying_array.__local_path, a.__underlying_array.__item_num_in_one_file, "
+                  "a.__underlying_array.__item_size, k)"],
+         modifies_ghost=FGHOST, props=["C19"])
